@@ -248,8 +248,14 @@ def run_case(spec):
 
     step_log = []
 
+    base_log = []
+
     def tap(fw, options):
         res_log.append((fw.resolution, options["radius_final"]))
+        try:
+            base_log.append(float(np.linalg.norm(fw.x_best - fw.models.interpolation.x_base)) / float(fw.radius))
+        except Exception:
+            base_log.append(math.nan)
         st_ = orig(fw, options)
         step_log.append((float(np.linalg.norm(st_[0] + st_[1])), fw.resolution, np.array(fw.x_best, copy=True)))
         return st_
@@ -261,8 +267,19 @@ def run_case(spec):
         geo_log.append((len(res_log), int(k_new)))
         return orig_geo(fw, k_new, options)
 
+    import cobyqa.models as cmodels
+
+    ill_log = []  # (number of trust-region steps made so far, ill-conditioning reported) per update of the set
+    orig_upd = cmodels.Models.update_interpolation
+
+    def tap_upd(models, *a, **k):
+        r_ = orig_upd(models, *a, **k)
+        ill_log.append((len(res_log), bool(r_)))
+        return r_
+
     cframework.TrustRegion.get_trust_region_step = tap
     cframework.TrustRegion.get_geometry_step = tap_geo
+    cmodels.Models.update_interpolation = tap_upd
     try:
         with np.errstate(all="ignore"):
             try:
@@ -273,6 +290,7 @@ def run_case(spec):
     finally:
         cframework.TrustRegion.get_trust_region_step = orig
         cframework.TrustRegion.get_geometry_step = orig_geo
+        cmodels.Models.update_interpolation = orig_upd
     xs = inst["xs"]
     err = float(np.linalg.norm(r.x - xs) / max(1.0, np.linalg.norm(xs)))
     v = inst["viol"](np.asarray(r.x, float))
@@ -295,6 +313,8 @@ def run_case(spec):
     # geometry steps during that final run, and how many different indices they replaced
     first_it = len(res_log) - stagnation
     final_geo = [k for it, k in geo_log if it > first_it]
+    final_ill = [flag for it, flag in ill_log if it > first_it]
+    final_base = [v for v in base_log[first_it:] if v == v]
     centre_err = centre_viol = None
     if step_log and step_log[-1][2].shape == xs.shape:
         centre = step_log[-1][2]
@@ -304,6 +324,8 @@ def run_case(spec):
                 final_unevaluated_short_steps=short, centre_err=centre_err, centre_viol=centre_viol,
                 final_iterations_at_constant_resolution=stagnation, n=spec["n"],
                 final_geometry_steps=len(final_geo), final_geometry_indices=len(set(final_geo)),
+                final_updates=len(final_ill), final_ill_conditioned_updates=int(sum(final_ill)),
+                final_max_base_distance_over_radius=(max(final_base) if final_base else None),
                 last_resolution=float(res_log[-1][0]) if res_log else None)
     if err > TOLS[fam]:
         out.fail("C04.dist." + fam, "%s instance (n=%d): returned point at relative distance %.3g from the "
@@ -333,16 +355,23 @@ def sig_short_step_infeasible(spec, fail):
 
 
 def sig_geometry_cycle(spec, fail):
-    """KF-C04-4: linear equalities, n = 5; the minimiser has been found (1e-6) and the resolution has reached
-    radius_final, but the run does not stop: for hundreds of iterations a rejected trust-region step alternates
-    with a geometry step (nine iterations in ten at least), until maxfev (status 5)."""
+    """KF-C04-4: the minimiser has been found (1e-6) and the resolution has reached radius_final, but the run does
+    not stop: the interpolation set has become singular (two interpolation points coincide - a geometry step
+    limited by the bounds or by the constraints lands on an existing point), every update reports an
+    ill-conditioned system, which forces another geometry step, and so on until maxfev (status 5).  The base point
+    is where it should be (within 10 radii of the best point), which tells this cycle from one caused by a base
+    point left behind."""
     d = fail.data
     it = d.get("final_iterations_at_constant_resolution", 0)
-    return (fail.clause == "C04.status.lineq" and d.get("status") == 5 and d.get("err", 1) <= 1e-6
-            and it >= 100 and d.get("final_geometry_steps", 0) >= 0.9 * it)
+    upd = d.get("final_updates", 0)
+    bd = d.get("final_max_base_distance_over_radius")
+    return (fail.clause.startswith("C04.status.") and d.get("status") == 5 and d.get("err", 1) <= 1e-6
+            and it >= 100 and d.get("final_geometry_steps", 0) >= 0.9 * it
+            and upd >= 100 and d.get("final_ill_conditioned_updates", 0) >= 0.9 * upd
+            and bd is not None and bd < 10.0)
 
 
 SIGNATURES = {
-    "lineq_status5_rejected_step_and_geometry_step_alternate_at_final_resolution": sig_geometry_cycle,
+    "status5_singular_set_forces_geometry_steps_at_final_resolution": sig_geometry_cycle,
     "lineq_status0_short_steps_never_evaluated_equality_violation_above_tol": sig_short_step_infeasible,
 }
